@@ -85,6 +85,8 @@ type c11Case struct {
 	Parent []int    `json:"parent,omitempty"`
 	Strat  int      `json:"strat,omitempty"`
 	Perm   int      `json:"perm,omitempty"`
+	// files: where the hash line stands in the artifact files (c11HashPlace)
+	HashPlace int `json:"hashPlace,omitempty"`
 	// cli: the subordinate's configuration file is a symbolic link to a file kept in another directory
 	Link bool `json:"link,omitempty"`
 	// forest
@@ -506,6 +508,14 @@ func c11Enumerate(tier string, yield func(any)) {
 			}
 		}
 	}
+	// the hash line behind a remark line / behind the blocks (complete artifacts, hash equal or different)
+	for hp := 1; hp <= 2; hp++ {
+		for rh := 1; rh < 3; rh++ {
+			for sh := 1; sh < 3; sh++ {
+				yield(&c11Case{Kind: "files", RootArt: 1, RootHash: rh, SubArt: 1, SubHash: sh, HashPlace: hp})
+			}
+		}
+	}
 	for reason := 0; reason < 6; reason++ {
 		yield(&c11Case{Kind: "cli", N: reason})
 		// the same with the subordinate's configuration file being a symbolic link (native filesystem)
@@ -846,15 +856,19 @@ func c11Dir() *Dir {
 }
 
 // c11Variant derives an artifact file of the given kind / hash state from a complete one.
+// c11HashPlace: where the hash line stands in the artifact files c11Variant builds: 0 first line (as gopki
+// writes it), 1 behind a remark line, 2 behind the blocks. The line may stand anywhere in the file.
+var c11HashPlace = 0
+
 func c11Variant(pem []byte, art, hash int, keyFixture string) []byte {
 	if art == 0 {
 		return nil
 	}
 	pf := refx509.SplitPem(pem)
-	var out []byte
+	var out, hashLine []byte
 	switch hash {
 	case 1:
-		out = append(out, []byte("#HASH:"+*pf.HashLine+"\n")...)
+		hashLine = []byte("#HASH:" + *pf.HashLine + "\n")
 	case 2:
 		h := []byte(*pf.HashLine)
 		if h[0] == 'A' {
@@ -862,8 +876,23 @@ func c11Variant(pem []byte, art, hash int, keyFixture string) []byte {
 		} else {
 			h[0] = 'A'
 		}
-		out = append(out, []byte("#HASH:"+string(h)+"\n")...)
+		hashLine = []byte("#HASH:" + string(h) + "\n")
 	}
+	switch c11HashPlace {
+	case 0:
+		out = append(out, hashLine...)
+	case 1:
+		out = append(append(out, []byte("# kept under version control, do not edit by hand\n")...), hashLine...)
+	}
+	if c11HashPlace == 2 {
+		body := c11Variant0(pf, art)
+		return append(body, hashLine...)
+	}
+	return append(out, c11Variant0(pf, art)...)
+}
+
+func c11Variant0(pf *refx509.PemFile, art int) []byte {
+	var out []byte
 	certB := refx509.EncodePem("CERTIFICATE", pf.CertDER)
 	keyB := refx509.EncodePem("PRIVATE KEY", pf.KeyDER)
 	switch art {
@@ -881,6 +910,8 @@ func c11Variant(pem []byte, art, hash int, keyFixture string) []byte {
 }
 
 func c11Files(x *engine.Ctx, c *c11Case) {
+	c11HashPlace = c.HashPlace
+	defer func() { c11HashPlace = 0 }()
 	base, err := c11GetBase()
 	if err != nil {
 		x.Cap(err.Error())
